@@ -31,6 +31,7 @@ properties! {
     "C11" => c11,
     "C12" => c12,
     "C14" => c14,
+    "C15" => c15,
     "C16" => c16,
     "C17" => c17,
     "C18" => c18,
